@@ -109,6 +109,7 @@ class Evaluator:
         a = fn.args
         self.params = {x.arg for x in a.args + a.kwonlyargs + a.posonlyargs}
         self.loopvars: Dict[str, str] = {}      # loop variable -> text of the collection it ranges over (on the current path)
+        self.exprs: Dict[str, ast.AST] = {}     # hole label -> the expression it stands for
 
     def _member(self, e) -> str:
         if e is None or isinstance(e, str):
@@ -120,10 +121,16 @@ class Evaluator:
         return ''.join('∈' + ''.join(o.split()) for o in out)
 
     def h(self, e=None) -> str:
-        return HOLE + _label(e) + self._member(e) + END
+        lab = _label(e) + self._member(e)
+        if isinstance(e, ast.AST):
+            self.exprs.setdefault(lab, e)
+        return HOLE + lab + END
 
     def st(self, e=None) -> str:
-        return STAR + _label(e) + self._member(e) + END
+        lab = _label(e) + self._member(e)
+        if isinstance(e, ast.AST):
+            self.exprs.setdefault(lab, e)
+        return STAR + lab + END
 
     def ev(self, e: ast.AST, env: Dict[str, object]) -> object:
         """Str or ListVal."""
@@ -256,11 +263,16 @@ class _LiftIfExp(ast.NodeTransformer):
 
 def skeletons(fn: ast.FunctionDef, unroll: int = 1, transparent=(), consts=None) -> List[Tuple[List[tuple], str]]:
     """[(branch literals of the path, skeleton)] for every returning path (one entry per alternative)."""
+    return [(l, a) for l, a, _, _ in skeleton_paths(fn, unroll, transparent, consts)]
+
+
+def skeleton_paths(fn: ast.FunctionDef, unroll: int = 1, transparent=(), consts=None):
+    """[(branch literals, skeleton with labelled holes, [(test source, outcome)] of the path, {label: expression})]."""
     import copy
     fn = _LiftIfExp().visit(copy.deepcopy(fn))
     ast.fix_missing_locations(fn)
     evl = Evaluator(fn, transparent, consts)
-    out: List[Tuple[List[tuple], str]] = []
+    out = []
     seen = set()
     for path in function_paths(fn, unroll=unroll):
         last = path[-1]
@@ -269,7 +281,7 @@ def skeletons(fn: ast.FunctionDef, unroll: int = 1, transparent=(), consts=None)
         env: Dict[str, object] = {}
         evl.loopvars = {}
         lits: List[tuple] = []
-        loop_depth_vars: Dict[str, int] = {}
+        tests: List[Tuple[str, bool]] = []
         feasible = True
         for evn in path:
             n = evn.node
@@ -295,6 +307,7 @@ def skeletons(fn: ast.FunctionDef, unroll: int = 1, transparent=(), consts=None)
                         feasible = False
                         break
                 lits.extend(conjuncts(term(n, evn.outcome)))
+                tests.append((norm(n), bool(evn.outcome)))
                 continue
             if evn.kind == 'iter' and isinstance(n, ast.For):
                 for x in ast.walk(n.target):
@@ -304,8 +317,9 @@ def skeletons(fn: ast.FunctionDef, unroll: int = 1, transparent=(), consts=None)
                 continue
             if evn.kind != 'stmt' or n is None:
                 continue
-            if isinstance(n, ast.Assign) and len(n.targets) == 1:
-                _assign(evl, env, n.targets[0], n.value)
+            if isinstance(n, ast.Assign):
+                for tg in n.targets:          # a = b = <value>
+                    _assign(evl, env, tg, n.value)
             elif isinstance(n, ast.AnnAssign) and n.value is not None:
                 _assign(evl, env, n.target, n.value)
             elif isinstance(n, ast.AugAssign) and isinstance(n.op, ast.Add) and isinstance(n.target, ast.Name):
@@ -350,7 +364,7 @@ def skeletons(fn: ast.FunctionDef, unroll: int = 1, transparent=(), consts=None)
             if key in seen:
                 continue
             seen.add(key)
-            out.append((list(lits), a))
+            out.append((list(lits), a, list(tests), evl.exprs))
     return out
 
 
